@@ -8,14 +8,19 @@
 (*   inferno/neural/network.py   Cell (an Observable), Layer               *)
 (*   shipped trainers            STDP (4 monitors per cell), MSTDPET (6)   *)
 (*                                                                         *)
-(* One layer with two cells "a" (1) and "b" (2) that share a neuron group  *)
-(* or a connection, and NT trainers.                                       *)
+(* Two cells "a" (1) and "b" (2) that share a neuron group or a connection *)
+(* of one layer - or (share = "layers") live in two different layers with  *)
+(* identical component names - and NT trainers.                            *)
 (*                                                                         *)
 (* Mech (what the code does): every trainer owns a pool                    *)
 (*      pool[t][c][m] = id of a PHYSICAL monitor object (0: none)          *)
 (* where a physical monitor may be aliased by both cells of the SAME       *)
 (* trainer (same monitor name, same realigned attribute, same tags);       *)
-(*      ph[id] = [reg, rec]   registered with the layer / what it holds    *)
+(*      ph[id] = [reg, rec, var, tag]   registered with its layer / what   *)
+(* it holds / which reducer + tags variant it was built with ("std": what  *)
+(* the trainer installs, "alt": another amplitude and an extra tag) /      *)
+(* whether it carries tags (objects built with unique = True do not and    *)
+(* can never be aliased)                                                   *)
 (* A registered monitor records at a layer step iff the layer is in        *)
 (* training mode (train_update = True, eval_update = False).               *)
 (* Physical ids are kept canonical (numbered by first reference in the     *)
@@ -50,10 +55,16 @@ NamesOf(tt) == IF tt = "mstdpet" THEN 1..6 ELSE 1..4
 Kind(m) == IF m \in {1, 3} THEN "trace" ELSE IF m \in {2, 4} THEN "pass" ELSE "elig"
 Unique(m) == m >= 5      \* the eligibility monitors are created with unique = True
 
-\* can the monitors named m of the two cells be one object?  (same realigned attribute and tags)
-Aliasable(cfg, m) ==
-  IF cfg.share = "neuron" THEN (m = 2 \/ (m = 1 /\ cfg.samehp))
-  ELSE (m = 4 \/ (m = 3 /\ cfg.samehp))
+\* can the monitors named m (built as variant var) of the two cells be one object?  Same basis
+\* (layer), same realigned attribute and same tags: the std trace monitors carry the cell's
+\* hyper-parameters in their tags, the alt ones the same values for both cells
+Aliasable(cfg, m, var) ==
+  /\ cfg.share # "layers"
+  /\ IF cfg.share = "neuron" THEN m \in {1, 2} ELSE m \in {3, 4}
+  /\ (Kind(m) = "pass" \/ var = "alt" \/ cfg.samehp)
+
+LayerOf(cfg, c) == IF cfg.share = "layers" THEN c ELSE 1
+Layers(cfg) == IF cfg.share = "layers" THEN {1, 2} ELSE {1}
 
 Record(m, rec, id) == CASE Kind(m) = "trace" -> Append(rec, id)
                         [] Kind(m) = "pass"  -> <<id>>
@@ -96,23 +107,28 @@ HasMonitors(st, t, c) == \E m \in 1..6 : st.pool[t][c][m] # 0
 (***************************************************************************)
 (* Mech                                                                    *)
 (***************************************************************************)
-\* MonitorPool.add_monitor for the standard definition of the monitor named m
-AddMon(st, t, c, m) ==
+\* MonitorPool.add_monitor(cell, name, attr, constructor, unique, **tags) with the constructor /
+\* tags variant var
+AddMon(st, t, c, m, u, var) ==
   LET cur == st.pool[t][c][m] IN
-  IF cur # 0 /\ ~Unique(m) THEN st          \* the existing monitor is returned, nothing else happens
+  IF cur # 0 /\ ~u THEN st          \* the existing monitor is returned, whatever was asked for
   ELSE
-    LET s1 == [st EXCEPT !.pool[t][c][m] = 0]   \* unique: the listed one is dropped (not deregistered)
-        cands == {c2 \in 1..NC : c2 # c /\ st.tr[t].cells[c2] /\ s1.pool[t][c2][m] # 0}
-        found == IF ~Unique(m) /\ Aliasable(st.cfg, m) /\ cands # {}
+    LET s1 == [st EXCEPT !.pool[t][c][m] = 0]   \* unique: the listed one is dropped (NOT deregistered:
+                                                \* it may still be pooled under the other cell)
+        cands == {c2 \in 1..NC : /\ c2 # c /\ st.tr[t].cells[c2] /\ s1.pool[t][c2][m] # 0
+                                  /\ s1.ph[s1.pool[t][c2][m]].tag /\ s1.ph[s1.pool[t][c2][m]].var = var}
+        found == IF ~u /\ Aliasable(st.cfg, m, var) /\ cands # {}
                  THEN s1.pool[t][CHOOSE c2 \in cands : TRUE][m] ELSE 0
         nid == Len(s1.ph) + 1
-        s2 == IF found # 0 THEN s1 ELSE [s1 EXCEPT !.ph = Append(@, [reg |-> TRUE, rec |-> <<>>])]
+        s2 == IF found # 0 THEN s1
+              ELSE [s1 EXCEPT !.ph = Append(@, [reg |-> TRUE, rec |-> <<>>, var |-> var, tag |-> ~u])]
         id == IF found # 0 THEN found ELSE nid
         s3 == IF st.tr[t].training THEN s2 ELSE [s2 EXCEPT !.ph[id].reg = FALSE]
     IN [s3 EXCEPT !.pool[t][c][m] = id]
 
 RECURSIVE AddAll(_, _, _, _, _)
-AddAll(st, t, c, m, last) == IF m > last THEN st ELSE AddAll(AddMon(st, t, c, m), t, c, m + 1, last)
+AddAll(st, t, c, m, last) ==
+  IF m > last THEN st ELSE AddAll(AddMon(st, t, c, m, Unique(m), "std"), t, c, m + 1, last)
 
 \* trainers (other than t) whose eligibility monitors on cell c read through the cell's name table
 Readers(st, t, c) == {u \in 1..NT(st) : u # t /\ st.tr[u].alive /\ st.cfg.ttype[u] = "mstdpet" /\ st.tr[u].cells[c]}
@@ -155,11 +171,15 @@ MDelCell(st, t, c) ==
            s2 == [s1 EXCEPT !.pool[t][c] = [m \in 1..6 |-> 0], !.tr[t].cells[c] = FALSE, !.redir[t][c] = FALSE]
        IN Ok(Normalize(s2))
 
-MAddMonitor(st, t, c, m) ==
+MAddMonitor(st, t, c, m, u, var) ==
   IF ~st.tr[t].cells[c] THEN Fail(st, "AttributeError")
-  ELSE LET proceeds == st.pool[t][c][m] = 0 \/ Unique(m)
-           s2 == Normalize(AddMon(st, t, c, m))
+  ELSE LET proceeds == st.pool[t][c][m] = 0 \/ u
+           s2 == Normalize(AddMon(st, t, c, m, u, var))
        IN IF proceeds /\ m <= 4 THEN {Out(s, OkR) : s \in Redirecting(st, t, c, s2)} ELSE Ok(s2)
+
+\* CellTrainer.add_cell: the cell alone, no monitors
+MAddCell(st, t, c) ==
+  IF st.tr[t].cells[c] THEN Fail(st, "ValueError") ELSE Ok([st EXCEPT !.tr[t].cells[c] = TRUE])
 
 MDelMonitor(st, t, c, m) ==
   IF ~st.tr[t].cells[c] \/ ~HasMonitors(st, t, c) THEN Fail(st, "AttributeError")
@@ -170,24 +190,27 @@ MTrainerTrain(st, t, b) ==
   Ok([st EXCEPT !.tr[t].training = b,
                 !.ph = [i \in DOMAIN @ |-> IF i \in IdsOf(st, t) THEN [@[i] EXCEPT !.reg = b] ELSE @[i]]])
 
-\* kind of the object = kind of any name it is listed under
-KindOfId(st, i) ==
-  LET tcm == CHOOSE x \in {<<t, c, m>> : t \in 1..NT(st), c \in 1..NC, m \in 1..6} : st.pool[x[1]][x[2]][x[3]] = i
-  IN tcm[3]
+\* a slot under which the object is listed (kind and layer are the same for all of them)
+SlotOfId(st, i) ==
+  CHOOSE x \in {<<t, c, m>> : t \in 1..NT(st), c \in 1..NC, m \in 1..6} : st.pool[x[1]][x[2]][x[3]] = i
 
-MStep(st) ==
+\* a step of layer L: every registered monitor of that layer records iff the layer trains
+MStep(st, L) ==
   LET id == st.clk + 1 IN
   Ok([st EXCEPT !.clk = id,
-                !.ph = [i \in DOMAIN @ |-> IF st.ltr /\ @[i].reg
-                                           THEN [@[i] EXCEPT !.rec = Record(KindOfId(st, i), @, id)] ELSE @[i]]])
+                !.ph = [i \in DOMAIN @ |->
+                   LET x == SlotOfId(st, i) IN
+                   IF st.ltr[L] /\ @[i].reg /\ LayerOf(st.cfg, x[2]) = L
+                   THEN [@[i] EXCEPT !.rec = Record(x[3], @, id)] ELSE @[i]]])
 
-\* what trainer() needs: every monitor it reads is listed and holds data
+\* what trainer() needs: every monitor it reads is listed and holds data (cells whose layer
+\* is in eval mode are skipped)
 Needed(tt) == IF tt = "mstdpet" THEN {5, 6} ELSE {1, 2, 3, 4}
 Supplied(st, t) ==
-  \A c \in 1..NC : st.tr[t].cells[c] =>
+  \A c \in 1..NC : (st.tr[t].cells[c] /\ st.ltr[LayerOf(st.cfg, c)]) =>
      \A m \in Needed(st.cfg.ttype[t]) : st.pool[t][c][m] # 0 /\ Len(st.ph[st.pool[t][c][m]].rec) > 0
 MTrainerStep(st, t) ==
-  IF ~st.tr[t].training \/ ~st.ltr THEN Ok(st)          \* skipped
+  IF ~st.tr[t].training THEN Ok(st)                     \* skipped
   ELSE IF Supplied(st, t) THEN Ok(st)
   ELSE Ok(st) \cup Fail(st, "Error")                    \* no data to compute from: not fixed by the property
 
@@ -206,27 +229,36 @@ ListNamed(st, t, c, m) ==
   ELSE IF m > 6 THEN ListNamed(st, t, c + 1, 1)
   ELSE (IF st.pool[t][c][m] # 0 THEN <<[c |-> CELLS[c], m |-> NAMES[m]]>> ELSE <<>>) \o ListNamed(st, t, c, m + 1)
 
-MList(st, t, what) ==
+MList(st, t, what, c) ==
   CASE what = "named"    -> {Out(st, [err |-> "", v |-> ListNamed(st, t, 1, 1)])}
     [] what = "monitors" -> {Out(st, [err |-> "", v |-> <<Cardinality(IdsOf(st, t))>>])}
     [] what = "cells"    -> {Out(st, [err |-> "", v |-> SelectSeq(CELLS, LAMBDA n : st.tr[t].cells[IF n = "a" THEN 1 ELSE 2])])}
+    \* named_monitors_of(cell) = get_unit(cell).monitors = what iterating the trainer yields
+    [] what = "of"       -> {Out(st, [err |-> "", v |-> SelectSeq(NAMES, LAMBDA n :
+                                 \E m \in 1..6 : NAMES[m] = n /\ st.pool[t][c][m] # 0)])}
 
 MApply(st, o) ==
   CASE o.a = "register_cell" -> MRegisterCell(st, o.t, o.c)
     [] o.a = "del_cell"      -> MDelCell(st, o.t, o.c)
-    [] o.a = "add_monitor"   -> MAddMonitor(st, o.t, o.c, o.m)
+    [] o.a = "add_monitor"   -> MAddMonitor(st, o.t, o.c, o.m, o.u, o.var)
+    [] o.a = "add_cell"      -> MAddCell(st, o.t, o.c)
+    [] o.a = "update"        -> Ok(st)
     [] o.a = "del_monitor"   -> MDelMonitor(st, o.t, o.c, o.m)
     [] o.a = "ttrain"        -> MTrainerTrain(st, o.t, o.b)
-    [] o.a = "ltrain"        -> Ok([st EXCEPT !.ltr = o.b])
-    [] o.a = "step"          -> MStep(st)
+    [] o.a = "ltrain"        -> Ok([st EXCEPT !.ltr[o.l] = o.b])
+    [] o.a = "step"          -> MStep(st, o.l)
     [] o.a = "tstep"         -> MTrainerStep(st, o.t)
     [] o.a = "clear"         -> MClear(st, o.t)
     [] o.a = "drop"          -> MDrop(st, o.t)
-    [] o.a = "list"          -> MList(st, o.t, o.what)
+    [] o.a = "list"          -> MList(st, o.t, o.what, o.c)
 
 Applicable(st, o) ==
   /\ "t" \in DOMAIN o => (o.t \in 1..NT(st) /\ st.tr[o.t].alive)
   /\ "m" \in DOMAIN o => (o.m \in NamesOf(st.cfg.ttype[o.t]))
+  /\ "l" \in DOMAIN o => (o.l \in Layers(st.cfg))
+  \* a bare cell (no monitors) under an eligibility-trace trainer: its eligibility monitors would
+  \* have nothing to read - a usage error, not modelled
+  /\ o.a = "add_cell" => st.cfg.ttype[o.t] = "stdp"
 
 \* states in which an eligibility-trace trainer reads somebody else's monitors
 Redirected(st) == \E t \in 1..NT(st), c \in 1..NC : st.redir[t][c]
@@ -248,15 +280,16 @@ AApply(a, cfg, o) ==
          ELSE [a EXCEPT !.tr[o.t].cells[o.c] = FALSE, !.mon[o.t][o.c] = [m \in 1..6 |-> Off]]
     [] o.a = "add_monitor" ->
          IF ~a.tr[o.t].cells[o.c] THEN a
-         ELSE IF a.mon[o.t][o.c][o.m].on /\ ~Unique(o.m) THEN a
+         ELSE IF a.mon[o.t][o.c][o.m].on /\ ~o.u THEN a
          ELSE [a EXCEPT !.mon[o.t][o.c][o.m] = Fresh]
+    [] o.a = "add_cell" -> [a EXCEPT !.tr[o.t].cells[o.c] = TRUE]
     [] o.a = "del_monitor" -> [a EXCEPT !.mon[o.t][o.c][o.m] = Off]
     [] o.a = "ttrain" -> [a EXCEPT !.tr[o.t].training = o.b]
-    [] o.a = "ltrain" -> [a EXCEPT !.ltr = o.b]
+    [] o.a = "ltrain" -> [a EXCEPT !.ltr[o.l] = o.b]
     [] o.a = "step" ->
          [a EXCEPT !.clk = @ + 1,
                    !.mon = [t \in DOMAIN @ |-> [c \in 1..NC |-> [m \in 1..6 |->
-                       IF a.ltr /\ a.tr[t].alive /\ a.tr[t].training /\ @[t][c][m].on
+                       IF a.ltr[o.l] /\ LayerOf(cfg, c) = o.l /\ a.tr[t].alive /\ a.tr[t].training /\ @[t][c][m].on
                        THEN [@[t][c][m] EXCEPT !.rec = Append(@, a.clk + 1)] ELSE @[t][c][m]]]]]
     [] o.a = "clear" ->
          [a EXCEPT !.mon[o.t] = [c \in 1..NC |-> [m \in 1..6 |-> IF @[c][m].on THEN Fresh ELSE Off]]]
@@ -295,12 +328,12 @@ Canonical(st) == Normalize(st) = st
 \* Isolation: an operation aimed at (trainer, cell) / at a trainer changes what no other
 \* logical monitor is registered as and holds
 Targets(o, t, c) ==
-  CASE o.a \in {"register_cell", "del_cell", "add_monitor", "del_monitor"} -> t = o.t /\ c = o.c
+  CASE o.a \in {"register_cell", "del_cell", "add_monitor", "del_monitor", "add_cell"} -> t = o.t /\ c = o.c
     [] o.a \in {"ttrain", "clear", "drop"} -> t = o.t
     [] o.a = "step" -> TRUE
     [] OTHER -> FALSE
 
-Aimed(o) == o.a \in {"register_cell", "del_cell", "add_monitor", "del_monitor", "ttrain", "clear", "drop"}
+Aimed(o) == o.a \in {"register_cell", "del_cell", "add_monitor", "del_monitor", "add_cell", "ttrain", "clear", "drop"}
 IsolationAt(st, o) ==
   IF o.a = "step" THEN TRUE
   ELSE IF ~Aimed(o) THEN \A mo \in MApply(st, o) : mo.st.pool = st.pool /\ mo.st.ph = st.ph
@@ -312,11 +345,11 @@ IsolationAt(st, o) ==
 \* one observation per training step: a layer step adds exactly the step id to exactly the
 \* monitors of trainers in training mode when the layer is in training mode, nothing otherwise
 StepExactAt(st) ==
-  \A mo \in MStep(st) : \A t \in 1..NT(st), c \in 1..NC, m \in 1..6 :
+  \A L \in Layers(st.cfg) : \A mo \in MStep(st, L) : \A t \in 1..NT(st), c \in 1..NC, m \in 1..6 :
      st.pool[t][c][m] # 0 =>
         LET p == st.ph[st.pool[t][c][m]]
             q == mo.st.ph[mo.st.pool[t][c][m]]
-        IN IF st.ltr /\ st.tr[t].training
+        IN IF st.ltr[L] /\ LayerOf(st.cfg, c) = L /\ st.tr[t].training
            THEN q.rec = Record(m, p.rec, st.clk + 1)
            ELSE q.rec = p.rec
 
@@ -324,24 +357,24 @@ StepExactAt(st) ==
 OnPairs(a, t) == UNION {{<<CELLS[c], NAMES[m]>> : m \in {j \in 1..6 : a.mon[t][c][j].on}} : c \in 1..NC}
 ListingsExactAt(st, a) ==
   \A t \in 1..NT(st) : st.tr[t].alive =>
-     /\ \A mo \in MList(st, t, "named") :
+     /\ \A mo \in MList(st, t, "named", 1) :
           /\ {<<mo.ret.v[i].c, mo.ret.v[i].m>> : i \in DOMAIN mo.ret.v} = OnPairs(a, t)
           /\ Len(mo.ret.v) = Cardinality(OnPairs(a, t))
-     /\ \A mo \in MList(st, t, "cells") :
+     /\ \A mo \in MList(st, t, "cells", 1) :
           /\ {mo.ret.v[i] : i \in DOMAIN mo.ret.v} = {CELLS[c] : c \in {k \in 1..NC : a.tr[t].cells[k]}}
           /\ Len(mo.ret.v) = Cardinality({k \in 1..NC : a.tr[t].cells[k]})
-     /\ \A mo \in MList(st, t, "monitors") :
+     /\ \A mo \in MList(st, t, "monitors", 1) :
           /\ mo.ret.v[1] <= Cardinality(OnPairs(a, t))
           /\ (OnPairs(a, t) # {}) => mo.ret.v[1] >= 1
+     /\ \A c \in 1..NC : \A mo \in MList(st, t, "of", c) :
+          {mo.ret.v[i] : i \in DOMAIN mo.ret.v} = {NAMES[m] : m \in {j \in 1..6 : a.mon[t][c][j].on}}
 
 \* with complete, current data (every monitor the trainer installs on every registered cell is
 \* there and has observed the last step) the trainer's update succeeds
 Complete(a, cfg, t) ==
-  /\ a.clk > 0
-  /\ \A c \in 1..NC : a.tr[t].cells[c] => \A m \in NamesOf(cfg.ttype[t]) :
+  \A c \in 1..NC : a.tr[t].cells[c] => \A m \in NamesOf(cfg.ttype[t]) :
         /\ a.mon[t][c][m].on
         /\ Len(a.mon[t][c][m].rec) > 0
-        /\ a.mon[t][c][m].rec[Len(a.mon[t][c][m].rec)] = a.clk
 TrainerStepOKAt(st, a) ==
   \A t \in 1..NT(st) :
      (st.tr[t].alive /\ Complete(a, st.cfg, t)) => \A mo \in MTrainerStep(st, t) : mo.ret.err = ""
